@@ -14,11 +14,15 @@ def ref_get(obj, path):
     return obj
 
 def ref_remove(obj, path):
+    if not path:
+        raise KeyError('empty path')
     parent = ref_get(obj, path[:-1])
     k = path[-1]
     if isinstance(parent, dict):
         return parent.pop(k)
-    return parent.pop(k)
+    if isinstance(parent, list) and isinstance(k, int) and 0 <= k < len(parent):
+        return parent.pop(k)
+    raise KeyError(k)
 
 def ref_upd(a, b):
     """right-biased recursive update on plain data (C02), used to merge the transformed stage"""
@@ -57,7 +61,10 @@ def ref_stage(acc, raw):
                 return node + [plain_of(c) for c in n['q']]
             return [plain_of(c) for c in n['q']]
         if t == 'prev':
-            tp = [sc_py(k) for k in NodePath.get_list_path(n['s']['x'])]
+            try:
+                tp = [sc_py(k) for k in NodePath.get_list_path(n['s']['x'])]
+            except ValueError:
+                raise PremergeFail()     # not a valid path string (keys that are not identifiers cannot be addressed by !prev)
             try:
                 return ref_remove(acc, tp)
             except (KeyError, IndexError, TypeError):
@@ -98,7 +105,7 @@ class C16(MergeFamProp):
         out = []
         for _ in range(n):
             st = list(self.STYLES[rng.randrange(len(self.STYLES))]) if rng.random() < 0.4 else ['flow', 0, 0]
-            base = M([(k, gen_plain_value(rng, 3)) for k in rng.sample(['a', 'b', 'c', 'k', 'x'], rng.choice([2, 3, 4]))])
+            base = M([(k, gen_plain_value(rng, 3)) for k in rng.sample(['a', 'b', 'c', 'k', 'x', 'x.y', 'my-key', 'k 1'], rng.choice([2, 3, 4]))])
             docs = [{'raw': base}]
             cur = copy.deepcopy(plain_of(base))
             for _s in range(rng.choice([1, 1, 2, 3])):
